@@ -207,7 +207,7 @@ impl G {
                 self.w.frame(f);
             }
         } else {
-            let wr = if self.rng.chance(1, 3) { Some(self.write_oracle()) } else { None };
+            let wr = if self.mode != "c07" && self.rng.chance(1, 3) { Some(self.write_oracle()) } else { None };
             let mut r = self.rng.fork();
             self.w.stream(wr, Some((frames, term)), &mut r);
         }
@@ -370,7 +370,7 @@ impl G {
                 }
             }
             26 => self.w.is_done(),
-            27 => {
+            27 if self.mode != "c07" => {
                 let o = self.write_oracle();
                 let mut r = self.rng.fork();
                 self.w.stream(Some(o), None, &mut r);
@@ -408,11 +408,27 @@ impl G {
                                 let (k, t, l) = (self.rng.below(3) as u8, self.tag(), self.body_len().min(400));
                                 let mut fs = self.content(ch, k, &t, l, 3);
                                 // maybe cut it short / overrun it
-                                match self.rng.below(4) {
+                                match self.rng.below(7) {
                                     0 => {
                                         fs.pop();
                                     }
                                     1 => fs.push(FR::Body(ch, vec![1])),
+                                    2 | 3 => {
+                                        // the last body frame carries more bytes than announced
+                                        let extra = self.rng.range(1, 3) as usize;
+                                        if let Some(FR::Body(_, b)) = fs.last_mut() {
+                                            b.extend(std::iter::repeat(9u8).take(extra));
+                                        }
+                                    }
+                                    4 => {
+                                        // the header announces less than what follows
+                                        if l > 0 {
+                                            let less = self.rng.range(1, l.min(3) as u64);
+                                            if let FR::Header(_, size, _) = &mut fs[1] {
+                                                *size -= less;
+                                            }
+                                        }
+                                    }
                                     _ => {}
                                 }
                                 self.feed(fs, Term::Block);
